@@ -1,17 +1,20 @@
+\* Stand-alone quick configuration (the check generates its own cfgs from checks/transport.py: q_a, q_b, q_w, q_w2).
+\* <=2 runs of length 0..2 over 4 bases, <=3 operations (split of split), all three kinds; page size 2.
+\*   java -cp $TLA tlc2.TLC -workers 8 -config MC_Transport_quick.cfg MC_Transport.tla
 SPECIFICATION Spec
 CONSTANTS
   P = 2
   M = 100000
-  MaxSegs = 3
+  MaxSegs = 2
   MaxLen = 2
   Bases <- MC_Bases4
   FLens <- MC_FLens
   Kinds <- MC_KindsAll
-  MaxOps = 2
-  MaxN = 3
+  MaxOps = 3
+  MaxN = 2
   FileSize = 2
   Chunks <- MC_Chunks
   MaxAddr = 6
 VIEW View
-INVARIANTS FlatAgree Counters InOrderOnce Placed FailClean Results NoOOB DirtyExact ObjCount Lemmas
+INVARIANTS FlatAgree Counters InOrderOnce Placed FailClean Results NoOOB ObjCount Lemmas DirtyExact
 CHECK_DEADLOCK FALSE
